@@ -23,6 +23,8 @@ type c06Case struct {
 	StallMs int
 	// Coalesce: this many consecutive client packets travel in one websocket message / HTTP chunk
 	Coalesce int
+	// UploadFirst: the client reads nothing until it has sent its whole stream (then reads everything)
+	UploadFirst bool
 }
 
 type piece struct {
@@ -75,6 +77,11 @@ func CheckC06(l *Lab, verifDir string) int {
 		add(c06Case{Transport: tr, LenC: 120000, LenH: 1000, PktSizes: []int{40000}, HostSegs: []int{500}, Coalesce: 2})
 		add(c06Case{Transport: tr, LenC: 150000, LenH: 70000, PktSizes: []int{1000}, HostSegs: []int{4086}, Coalesce: 100})
 		add(c06Case{Transport: tr, LenC: 90000, LenH: 0, PktSizes: []int{0}, HostSegs: []int{1}, Coalesce: 7})
+	}
+	// a client that uploads everything before it reads anything, while the host is already sending
+	// more than the path towards the client can buffer
+	for _, tr := range Transports() {
+		add(c06Case{Transport: tr, LenC: 12 << 20, LenH: 24 << 20, PktSizes: []int{32000}, HostSegs: []int{65536}, UploadFirst: true})
 	}
 	// lies about the payload length
 	for i := 0; i < l.Pick(12, 120); i++ {
@@ -195,8 +202,14 @@ func c06One(rep *Report, f *Fixture, c c06Case) {
 	}
 	var wg sync.WaitGroup
 	wg.Add(2)
+	if c.UploadFirst {
+		ch.T.PauseReading()
+	}
 	go func() {
 		defer wg.Done()
+		if c.UploadFirst {
+			defer ch.T.ResumeReading()
+		}
 		if c.Coalesce > 1 {
 			var grouped [][]byte
 			for i := 0; i < len(pkts); i += c.Coalesce {
@@ -233,7 +246,33 @@ func c06One(rep *Report, f *Fixture, c c06Case) {
 			}
 		})
 	}()
-	wg.Wait()
+	// both senders finish, or nothing moves any more in either direction (progress, not a deadline)
+	sendersDone := make(chan struct{})
+	go func() { wg.Wait(); close(sendersDone) }()
+	lastProgress, lastSum := time.Now(), -1
+	for waiting := true; waiting; {
+		select {
+		case <-sendersDone:
+			waiting = false
+		case <-time.After(500 * time.Millisecond):
+			gh, _ := ch.T.WaitDataBytes(1<<62, time.Millisecond)
+			gc, _ := ch.B.WaitBytes(1<<62, time.Millisecond)
+			if gh+gc != lastSum {
+				lastSum, lastProgress = gh+gc, time.Now()
+			} else if time.Since(lastProgress) > env.W {
+				if f.GW.Alive() {
+					rep.Violate("C06/relay-stalled/"+c.Transport, fmt.Sprintf("client and host are both still sending (client reads nothing until its upload is done: %v) and no byte has moved in either direction for %v: host got %d of %d, client got %d of %d", c.UploadFirst, env.W, gc, c.LenC, gh, c.LenH), map[string]any{"case": c})
+				} else {
+					rep.Inconclusive("gateway not alive while senders were blocked")
+				}
+				ch.T.ResumeReading()
+				ch.T.Close()
+				ch.B.C.Close()
+				<-sendersDone
+				return
+			}
+		}
+	}
 	mustLen := 0
 	for _, p := range pieces {
 		mustLen += len(p.must)
